@@ -26,7 +26,8 @@
 //	     P  Receive panicked      H  the harness gave up (too many calls)
 //	X <call>* | <event>*                                 calls on one Transmitter
 //	     call = <frame>;<deadline01>;<deadline answer code|->;<write answer n>;<write answer code|->
-//	            (every Write of the call answers (min(n, len(b)), error))
+//	            (every Write of the call answers (min(n, len(b)), error); with a 6th field ";s" only the
+//	            FIRST Write of the call does, every later Write of the same call answers (len(b), nil))
 //	     D SetWriteDeadline(ctx deadline)  D! (other time)  W<hex> Write  I<frame> interceptor
 //	     U<name> any other method of the conn   R<code|-> result of the call (errors.Is cause)
 //	C <frame>* | <block32hex|E>*                         K goroutines transmit one frame each on ONE shared
@@ -50,6 +51,7 @@ import (
 	"strconv"
 	"strings"
 	"sync"
+	"syscall"
 	"time"
 
 	"go.einride.tech/can"
@@ -92,7 +94,36 @@ func inj(k int) error {
 	return e
 }
 
+// error values a maintainer might special-case ("transient", "retry"): the property says one Write
+// per call and the error returned, whatever the error is. Wrappers come AFTER what they wrap
+// (causeCode looks for the most specific one first).
+type timeoutErr struct{}
+
+func (timeoutErr) Error() string   { return "i/o timeout" }
+func (timeoutErr) Timeout() bool   { return true }
+func (timeoutErr) Temporary() bool { return true }
+
+var _ net.Error = timeoutErr{}
+
+var realErrs = []error{
+	syscall.ENOBUFS, syscall.EAGAIN, syscall.EINTR, syscall.EPIPE, syscall.ECONNRESET, timeoutErr{},
+	io.ErrShortWrite, os.ErrDeadlineExceeded, context.DeadlineExceeded,
+	os.NewSyscallError("write", syscall.ENOBUFS),
+	&net.OpError{Op: "write", Net: "can", Err: os.NewSyscallError("write", syscall.ENOBUFS)},
+	&net.OpError{Op: "write", Net: "tcp", Err: os.NewSyscallError("write", syscall.EAGAIN)},
+	&net.OpError{Op: "write", Net: "tcp", Err: syscall.EINTR},
+	&net.OpError{Op: "write", Net: "tcp", Err: timeoutErr{}},
+	&net.OpError{Op: "write", Net: "udp", Err: os.ErrDeadlineExceeded},
+}
+
 func errCode(err error) string {
+	if err != nil {
+		for k, e := range realErrs {
+			if e == err {
+				return fmt.Sprintf("%x", 64+k)
+			}
+		}
+	}
 	switch err {
 	case nil:
 		return "-"
@@ -125,6 +156,11 @@ func causeCode(err error) string {
 	var ie *injErr
 	if errors.As(err, &ie) {
 		return fmt.Sprintf("%x", 16+ie.k)
+	}
+	for k := len(realErrs) - 1; k >= 0; k-- {
+		if errors.Is(err, realErrs[k]) {
+			return fmt.Sprintf("%x", 64+k)
+		}
 	}
 	for _, known := range []error{io.EOF, io.ErrNoProgress, io.ErrUnexpectedEOF} {
 		if errors.Is(err, known) {
@@ -247,12 +283,18 @@ type fakeConn struct {
 	writeN      int // byte count answered by Write (capped at len(b))
 	want        time.Time
 	writes      [][]byte
+	laterOK     bool // only the first Write of a call gets the scripted answer, later ones succeed
+	nw          int  // Writes so far in the current call
 }
 
 func (c *fakeConn) Write(b []byte) (int, error) {
 	cp := append([]byte(nil), b...)
 	c.writes = append(c.writes, cp)
 	c.events = append(c.events, "W"+hex.EncodeToString(cp))
+	c.nw++
+	if c.laterOK && c.nw > 1 {
+		return len(b), nil
+	}
 	n := c.writeN
 	if n > len(b) {
 		n = len(b)
@@ -332,6 +374,73 @@ func emitBlock(b [16]byte) {
 		return
 	}
 	fmt.Fprintf(out, "R %s | %s %s %s %s\n", hex.EncodeToString(b[:]), b01(ok), frameStr(r.Frame()), b01(r.HasErrorFrame()), errFrameStr(r.ErrorFrame()))
+}
+
+// the blocks as one byte stream through ONE receiver, cut into reads at arbitrary offsets (or all
+// blocks in one read): one Receive per block must yield the block's frame, exactly as for an aligned
+// 16-byte read
+func emitSplit(rng *rand.Rand, blocks [][16]byte) {
+	var all []byte
+	var hx []string
+	for _, b := range blocks {
+		all = append(all, b[:]...)
+		hx = append(hx, hex.EncodeToString(b[:]))
+	}
+	var script []entry
+	style := rng.Intn(5)
+	if style == 4 && len(blocks) == 1 {
+		style = rng.Intn(4)
+	}
+	switch style {
+	case 0: // one cut at an arbitrary offset
+		c := 1 + rng.Intn(len(all)-1)
+		script = []entry{{data: all[:c]}, {data: all[c:]}}
+	case 1: // constant read size that is not the block size
+		cs := 1 + rng.Intn(40)
+		if cs%16 == 0 {
+			cs += 1 + rng.Intn(15)
+		}
+		script = constChunks(all, cs)
+	case 2:
+		script = randomPartition(rng, all, 0.12, 0)
+	case 3: // one cut inside every block
+		start := 0
+		for i := range blocks {
+			c := 16*i + 1 + rng.Intn(15)
+			script = append(script, entry{data: all[start:c]})
+			start = c
+		}
+		script = append(script, entry{data: all[start:]})
+	case 4: // several blocks per read
+		script = []entry{{data: all}}
+	}
+	rd := &scriptReader{script: script}
+	r := socketcan.NewReceiver(rd)
+	var rx []string
+	for range blocks {
+		ok, panicked := safeReceive(r)
+		if panicked {
+			rx = append(rx, "P")
+			break
+		}
+		rx = append(rx, fmt.Sprintf("%s:%s:%s:%s", b01(ok), frameStr(r.Frame()), b01(r.HasErrorFrame()), errFrameStr(r.ErrorFrame())))
+	}
+	fmt.Fprintf(out, "Q %s | %s | %s\n", strings.Join(hx, " "), strings.Join(rd.log, " "), strings.Join(rx, " "))
+}
+
+// a share of the R blocks is ALSO delivered unaligned: collected into batches of 1..4 blocks
+var (
+	splitBatch [][16]byte
+	splitWant  = 1
+)
+
+func alsoSplit(rng *rand.Rand, b [16]byte) {
+	splitBatch = append(splitBatch, b)
+	if len(splitBatch) >= splitWant {
+		emitSplit(rng, splitBatch)
+		splitBatch = splitBatch[:0]
+		splitWant = 1 + rng.Intn(4)
+	}
 }
 
 func mkBlock(w uint32, dlc byte, pad [3]byte, d can.Data) [16]byte {
@@ -438,6 +547,7 @@ func c06(seed int64, thorough bool) {
 		pats = append(pats, rng.Uint32()&0x1fffffff)
 	}
 	dlcs := []byte{0, 1, 2, 3, 4, 5, 6, 7, 8, 9, 15, 16, 255}
+	nsplit := 0
 	for fl := uint32(0); fl < 8; fl++ {
 		for _, p := range pats {
 			w := fl<<29 | p
@@ -448,13 +558,30 @@ func c06(seed int64, thorough bool) {
 					if i%2 == 1 {
 						pad = [3]byte{byte(rng.Intn(256)), byte(rng.Intn(256)), byte(rng.Intn(256))}
 					}
-					emitBlock(mkBlock(w, dlc, pad, d))
+					blk := mkBlock(w, dlc, pad, d)
+					emitBlock(blk)
+					if nsplit++; nsplit%3 == 0 {
+						alsoSplit(rng, blk)
+					}
 				}
 			}
 		}
 		for _, d := range basis {
 			emitBlock(mkBlock(fl<<29|0x4, 8, [3]byte{}, d))
 			emitBlock(mkBlock(fl<<29|0x1abcdef5, 8, [3]byte{0xff, 0xff, 0xff}, d))
+			alsoSplit(rng, mkBlock(fl<<29|0x1abcdef5, 8, [3]byte{0xff, 0xff, 0xff}, d))
+		}
+	}
+	// every value of the length byte x flag combinations x a few IDs
+	for dlc := 0; dlc <= 255; dlc++ {
+		for fl := uint32(0); fl < 8; fl++ {
+			for _, p := range []uint32{0, 0x7ff, 0x1fffffff, rng.Uint32() & 0x1fffffff} {
+				blk := mkBlock(fl<<29|p, byte(dlc), [3]byte{}, dataOf(rng.Uint64()))
+				emitBlock(blk)
+				if nsplit++; nsplit%3 == 0 {
+					alsoSplit(rng, blk)
+				}
+			}
 		}
 	}
 	nblk := 100000
@@ -468,6 +595,13 @@ func c06(seed int64, thorough bool) {
 			b[4] %= 9
 		}
 		emitBlock(b)
+		if i%4 == 0 {
+			alsoSplit(rng, b)
+		}
+	}
+	if len(splitBatch) > 0 {
+		emitSplit(rng, splitBatch)
+		splitBatch = splitBatch[:0]
 	}
 	// goroutines sharing one Transmitter (canrunner runs one transmit goroutine per message on one
 	// transmitter): the multiset of written blocks must be the frames' layouts
@@ -480,6 +614,19 @@ func c06(seed int64, thorough bool) {
 			emitConcurrent(rng, k)
 		}
 	}
+	// valid frames on connections whose Write fails: still exactly one Write of the frame's 16 bytes
+	emitTransmitFaults(rng, validFrame, thorough)
+}
+
+func validFrame(rng *rand.Rand) can.Frame {
+	f := can.Frame{Length: uint8(rng.Intn(9)), Data: dataOf(rng.Uint64()), IsRemote: rng.Intn(4) == 0}
+	if rng.Intn(2) == 0 {
+		f.ID = rng.Uint32() & 0x7ff
+	} else {
+		f.ID = rng.Uint32() & 0x1fffffff
+		f.IsExtended = true
+	}
+	return f
 }
 
 // ---------------------------------------------------------------- C06: one Transmitter shared by goroutines
@@ -581,6 +728,9 @@ func randFrameBytes(rng *rand.Rand) []byte {
 	}
 	b[0], b[1], b[2], b[3] = byte(w), byte(w>>8), byte(w>>16), byte(w>>24)
 	b[4] = byte(rng.Intn(9))
+	if rng.Intn(8) == 0 { // a length byte no classic CAN frame has: still a block, still one frame
+		b[4] = byte(9 + rng.Intn(247))
+	}
 	rng.Read(b[8:])
 	return b
 }
@@ -796,6 +946,390 @@ func c07(seed int64, thorough bool) {
 	for i := 0; i < ncalls; i++ {
 		emitTransmit(rng, 1+rng.Intn(5), rng.Intn(40))
 	}
+	// 8. several receivers / transmitters alive in one process, operations interleaved
+	c07process(rng, thorough)
+	// 9. Write failing with real error kinds x every byte count 0..16, later Writes of the call succeed
+	emitTransmitFaults(rng, randFrame, thorough)
+	// 10. goroutines sharing one Transmitter: each pending Write must carry its own frame
+	rounds := 10
+	if thorough {
+		rounds = 100
+	}
+	for r := 0; r < rounds; r++ {
+		for k := 2; k <= 8; k++ {
+			emitConcurrent(rng, k)
+		}
+	}
+}
+
+// ---------------------------------------------------------------- C07: several receivers in one process
+
+// what a closed connection answers to Read when failAfterClose is set (like a net.Conn)
+var errClosed = inj(8)
+
+type closeReader struct {
+	scriptReader
+	failAfterClose bool
+	closed         int
+}
+
+func (s *closeReader) Read(p []byte) (int, error) {
+	if s.closed > 0 && s.failAfterClose {
+		s.log = append(s.log, "e"+errCode(errClosed))
+		return 0, errClosed
+	}
+	return s.scriptReader.Read(p)
+}
+
+func (s *closeReader) Close() error { s.closed++; return nil }
+
+type mrecv struct {
+	rd    *closeReader
+	r     *socketcan.Receiver
+	total int
+	calls int
+	stops int
+	dead  bool
+}
+
+// one process: receivers are created, read from and closed in an interleaved schedule
+type mproc struct {
+	recvs []*mrecv
+	ops   []string
+	obs   []string
+	icpt  []string // interceptor calls (of ANY receiver) during the current operation
+}
+
+func (p *mproc) create(script []entry, icpt bool, failAfterClose bool) int {
+	id := len(p.recvs)
+	total := 0
+	for _, e := range script {
+		total += len(e.data)
+	}
+	rd := &closeReader{scriptReader: scriptReader{script: script}, failAfterClose: failAfterClose}
+	var r *socketcan.Receiver
+	if icpt {
+		r = socketcan.NewReceiver(rd, socketcan.ReceiverFrameInterceptor(func(f can.Frame) {
+			p.icpt = append(p.icpt, fmt.Sprintf("%d@%s", id, frameStr(f)))
+		}))
+	} else {
+		r = socketcan.NewReceiver(rd)
+	}
+	p.recvs = append(p.recvs, &mrecv{rd: rd, r: r, total: total})
+	p.ops = append(p.ops, fmt.Sprintf("n%d:%s", id, b01(icpt)))
+	return id
+}
+
+func (p *mproc) finished(id int) bool {
+	m := p.recvs[id]
+	return m.dead || m.stops >= 2 || m.calls >= m.total/16+4
+}
+
+func (p *mproc) receive(id int) {
+	m := p.recvs[id]
+	if m.dead {
+		return
+	}
+	p.ops = append(p.ops, fmt.Sprintf("r%d", id))
+	p.icpt = p.icpt[:0]
+	m.calls++
+	ok, panicked := safeReceive(m.r)
+	ic := strings.Join(p.icpt, ",")
+	switch {
+	case panicked:
+		m.dead = true
+		p.obs = append(p.obs, fmt.Sprintf("%d/P", id))
+	case ok:
+		p.obs = append(p.obs, fmt.Sprintf("%d/T:%s:%s:%s:%s", id, ic, frameStr(m.r.Frame()), b01(m.r.HasErrorFrame()), errFrameStr(m.r.ErrorFrame())))
+	default:
+		m.stops++
+		p.obs = append(p.obs, fmt.Sprintf("%d/F:%s:%s:%s", id, ic, frameStr(m.r.Frame()), errCode(m.r.Err())))
+	}
+}
+
+func (p *mproc) close(id int) {
+	m := p.recvs[id]
+	if m.dead {
+		return
+	}
+	p.ops = append(p.ops, fmt.Sprintf("c%d", id))
+	err := m.r.Close()
+	p.obs = append(p.obs, fmt.Sprintf("%d/C%s", id, errCode(err)))
+}
+
+// Receive on the given receivers in random order until each has reported the end twice
+func (p *mproc) drain(rng *rand.Rand, ids ...int) {
+	for {
+		var open []int
+		for _, id := range ids {
+			if !p.finished(id) {
+				open = append(open, id)
+			}
+		}
+		if len(open) == 0 {
+			return
+		}
+		p.receive(open[rng.Intn(len(open))])
+	}
+}
+
+func (p *mproc) emit() {
+	logs := make([]string, len(p.recvs))
+	for i, m := range p.recvs {
+		logs[i] = fmt.Sprintf("L%d=%s", i, strings.Join(m.rd.log, ","))
+	}
+	fmt.Fprintf(out, "M %s | %s | %s\n", strings.Join(p.ops, " "), strings.Join(logs, " "), strings.Join(p.obs, " "))
+}
+
+// a connection: a stream of minFrames..6 frames + trailing bytes, cut into reads in one of several ways
+func mscript(rng *rand.Rand, minFrames int) []entry {
+	nf := minFrames + rng.Intn(7-minFrames)
+	bs := stream(rng, nf, []int{0, 0, 3, 9, 15}[rng.Intn(5)])
+	var s []entry
+	switch rng.Intn(6) {
+	case 0, 1: // everything in one read: many frames per read
+		s = []entry{{data: bs}}
+	case 2:
+		s = constChunks(bs, 1+rng.Intn(64))
+	case 3:
+		s = randomPartition(rng, bs, 0.03, 0.1)
+	case 4:
+		s = randomPartition(rng, bs, 0.2, 0)
+	case 5: // reads of one and a half / two and a half frames
+		s = constChunks(bs, []int{24, 40}[rng.Intn(2)])
+	}
+	switch rng.Intn(8) {
+	case 0:
+		s = append(s, entry{err: inj(1 + rng.Intn(6))})
+	case 1:
+		if len(s) > 0 {
+			s[len(s)-1].err = inj(1 + rng.Intn(6))
+		}
+	case 2:
+		s = withEOF(s)
+	}
+	return s
+}
+
+// random schedule: create / Receive / Close (closed receivers stay in use, may be closed again)
+func emitMultiRandom(rng *rand.Rand) {
+	p := &mproc{}
+	maxK := 2 + rng.Intn(4)
+	nops := 8 + rng.Intn(40)
+	pClose := []int{5, 15, 30}[rng.Intn(3)]
+	p.create(mscript(rng, 0), rng.Intn(2) == 0, rng.Intn(2) == 0)
+	for i := 0; i < nops; i++ {
+		x := rng.Intn(100)
+		switch {
+		case x < 15 && len(p.recvs) < maxK:
+			p.create(mscript(rng, 0), rng.Intn(2) == 0, rng.Intn(2) == 0)
+		case x < 15+pClose:
+			p.close(rng.Intn(len(p.recvs)))
+		default:
+			id := rng.Intn(len(p.recvs))
+			if !p.finished(id) {
+				p.receive(id)
+			}
+		}
+	}
+	all := make([]int, len(p.recvs))
+	for i := range all {
+		all[i] = i
+	}
+	p.drain(rng, all...)
+	p.emit()
+}
+
+// life cycle: a receiver is used a little, closed (once / twice / three times, possibly with frames
+// still buffered); further receivers are created afterwards and all are read interleaved
+func emitMultiLifecycle(rng *rand.Rand) {
+	p := &mproc{}
+	var ids []int
+	nfirst := 1 + rng.Intn(2)
+	for i := 0; i < nfirst; i++ {
+		ids = append(ids, p.create(mscript(rng, 2), rng.Intn(2) == 0, rng.Intn(2) == 0))
+	}
+	for _, id := range ids {
+		for k := rng.Intn(3); k > 0; k-- {
+			p.receive(id)
+		}
+	}
+	for _, id := range ids {
+		for k := 1 + rng.Intn(3); k > 0; k-- {
+			p.close(id)
+		}
+	}
+	for k := 1 + rng.Intn(3); k > 0; k-- {
+		ids = append(ids, p.create(mscript(rng, 2), rng.Intn(2) == 0, rng.Intn(2) == 0))
+		if rng.Intn(3) == 0 {
+			p.receive(ids[len(ids)-1])
+		}
+	}
+	p.drain(rng, ids...)
+	p.emit()
+}
+
+// every assignment of "with / without interceptor" to 1..3 receivers, created up front or one after
+// the other between reads
+func emitMultiInterceptors(rng *rand.Rand, k int, mask int, upFront bool) {
+	p := &mproc{}
+	var ids []int
+	for i := 0; i < k; i++ {
+		ids = append(ids, p.create(mscript(rng, 1), mask&(1<<uint(i)) != 0, false))
+		if !upFront {
+			for n := 1 + rng.Intn(2); n > 0; n-- {
+				p.receive(ids[rng.Intn(len(ids))])
+			}
+		}
+	}
+	p.drain(rng, ids...)
+	p.emit()
+}
+
+// ---------------------------------------------------------------- C07: several transmitters in one process
+
+type tconn struct {
+	id          int
+	log         *[]string
+	deadlineAns error
+	writeAns    error
+	writeN      int
+	want        time.Time
+}
+
+func (c *tconn) ev(s string) { *c.log = append(*c.log, fmt.Sprintf("%d.%s", c.id, s)) }
+
+func (c *tconn) Write(b []byte) (int, error) {
+	c.ev("W" + hex.EncodeToString(b))
+	n := c.writeN
+	if n > len(b) {
+		n = len(b)
+	}
+	return n, c.writeAns
+}
+
+func (c *tconn) SetWriteDeadline(t time.Time) error {
+	if t.Equal(c.want) {
+		c.ev("D")
+	} else {
+		c.ev("D!")
+	}
+	return c.deadlineAns
+}
+func (c *tconn) Read(b []byte) (int, error)        { c.ev("URead"); return 0, io.EOF }
+func (c *tconn) Close() error                      { c.ev("UClose"); return nil }
+func (c *tconn) LocalAddr() net.Addr               { c.ev("ULocalAddr"); return nil }
+func (c *tconn) RemoteAddr() net.Addr              { c.ev("URemoteAddr"); return nil }
+func (c *tconn) SetDeadline(t time.Time) error     { c.ev("USetDeadline"); return nil }
+func (c *tconn) SetReadDeadline(t time.Time) error { c.ev("USetReadDeadline"); return nil }
+
+// flags[i] = transmitter i has an interceptor; upFront = all created before the first call
+func emitMultiTransmit(rng *rand.Rand, flags []bool, upFront bool, ncalls int) {
+	var log, ops, events []string
+	var conns []*tconn
+	var txs []*socketcan.Transmitter
+	create := func() {
+		id := len(txs)
+		conn := &tconn{id: id, log: &log}
+		var tx *socketcan.Transmitter
+		if flags[id] {
+			tx = socketcan.NewTransmitter(conn, socketcan.TransmitterFrameInterceptor(func(f can.Frame) {
+				log = append(log, fmt.Sprintf("%d.I%s", id, frameStr(f)))
+			}))
+		} else {
+			tx = socketcan.NewTransmitter(conn)
+		}
+		conns = append(conns, conn)
+		txs = append(txs, tx)
+		ops = append(ops, fmt.Sprintf("n%d:%s", id, b01(flags[id])))
+	}
+	call := func(i int) {
+		conn := conns[i]
+		f := randFrame(rng)
+		combo := rng.Intn(40)
+		if rng.Intn(2) == 0 {
+			combo &^= 6 // both answers nil: the call succeeds
+		}
+		dl := combo&1 != 0
+		conn.deadlineAns, conn.writeAns = nil, nil
+		if combo&2 != 0 {
+			conn.deadlineAns = inj(5)
+		}
+		if combo&4 != 0 {
+			conn.writeAns = inj(6)
+		}
+		conn.writeN = []int{0, 1, 8, 15, 16}[combo/8]
+		ctx := context.Background()
+		cancel := func() {}
+		if dl {
+			conn.want = time.Now().Add(time.Duration(1+rng.Intn(1000)) * time.Hour)
+			ctx, cancel = context.WithDeadline(ctx, conn.want)
+		}
+		ops = append(ops, fmt.Sprintf("t%d:%s;%s;%s;%x;%s", i, frameStr(f), b01(dl), errCode(conn.deadlineAns), conn.writeN, errCode(conn.writeAns)))
+		start := len(log)
+		err := txs[i].TransmitFrame(ctx, f)
+		cancel()
+		for _, e := range log[start:] {
+			events = append(events, fmt.Sprintf("%d/%s", i, e))
+		}
+		events = append(events, fmt.Sprintf("%d/%d.R%s", i, i, causeCode(err)))
+	}
+	if upFront {
+		for range flags {
+			create()
+		}
+	} else {
+		create()
+	}
+	for n := 0; n < ncalls; n++ {
+		if len(txs) < len(flags) && rng.Intn(3) == 0 {
+			create()
+		}
+		call(rng.Intn(len(txs)))
+	}
+	for len(txs) < len(flags) {
+		create()
+		call(rng.Intn(len(txs)))
+	}
+	fmt.Fprintf(out, "N %s | %s\n", strings.Join(ops, " "), strings.Join(events, " "))
+}
+
+func c07process(rng *rand.Rand, thorough bool) {
+	scale := 1
+	if thorough {
+		scale = 20
+	}
+	for rep := 0; rep < 12*scale; rep++ {
+		for k := 1; k <= 3; k++ {
+			for mask := 0; mask < 1<<uint(k); mask++ {
+				emitMultiInterceptors(rng, k, mask, rep%2 == 0)
+			}
+		}
+	}
+	for i := 0; i < 500*scale; i++ {
+		emitMultiLifecycle(rng)
+	}
+	for i := 0; i < 1500*scale; i++ {
+		emitMultiRandom(rng)
+	}
+	for rep := 0; rep < 12*scale; rep++ {
+		for k := 1; k <= 3; k++ {
+			for mask := 0; mask < 1<<uint(k); mask++ {
+				flags := make([]bool, k)
+				for i := range flags {
+					flags[i] = mask&(1<<uint(i)) != 0
+				}
+				emitMultiTransmit(rng, flags, rep%2 == 0, 2*k+rng.Intn(6))
+			}
+		}
+	}
+	for i := 0; i < 400*scale; i++ {
+		flags := make([]bool, 2+rng.Intn(4))
+		for j := range flags {
+			flags[j] = rng.Intn(2) == 0
+		}
+		emitMultiTransmit(rng, flags, rng.Intn(2) == 0, 4+rng.Intn(12))
+	}
 }
 
 func randFrame(rng *rand.Rand) can.Frame {
@@ -813,39 +1347,86 @@ func randFrame(rng *rand.Rand) can.Frame {
 	return f
 }
 
+// what the connection answers during one TransmitFrame call
+type txAnswers struct {
+	dl          bool  // the context has a deadline
+	deadlineAns error // SetWriteDeadline
+	writeN      int   // Write: byte count ...
+	writeAns    error // ... and error
+	laterOK     bool  // only the first Write of the call gets (writeN, writeAns); later ones (len(b), nil)
+}
+
+func comboAnswers(combo int) txAnswers {
+	a := txAnswers{dl: combo&1 != 0, writeN: []int{0, 1, 8, 15, 16}[combo/8]}
+	if combo&2 != 0 {
+		a.deadlineAns = inj(5)
+	}
+	if combo&4 != 0 {
+		a.writeAns = inj(6)
+	}
+	return a
+}
+
 func emitTransmit(rng *rand.Rand, n int, first int) {
+	answers := []txAnswers{comboAnswers(first)}
+	for i := 1; i < n; i++ {
+		answers = append(answers, comboAnswers(rng.Intn(40)))
+	}
+	emitTransmitCalls(rng, randFrame, answers)
+}
+
+func emitTransmitCalls(rng *rand.Rand, gen func(*rand.Rand) can.Frame, answers []txAnswers) {
 	conn := &fakeConn{}
 	tx := socketcan.NewTransmitter(conn, socketcan.TransmitterFrameInterceptor(func(f can.Frame) {
 		conn.events = append(conn.events, "I"+frameStr(f))
 	}))
 	var calls []string
-	for i := 0; i < n; i++ {
-		f := randFrame(rng)
-		combo := first
-		if i > 0 {
-			combo = rng.Intn(40)
-		}
-		dl := combo&1 != 0
-		conn.deadlineAns, conn.writeAns = nil, nil
-		if combo&2 != 0 {
-			conn.deadlineAns = inj(5)
-		}
-		if combo&4 != 0 {
-			conn.writeAns = inj(6)
-		}
-		conn.writeN = []int{0, 1, 8, 15, 16}[combo/8]
+	for _, a := range answers {
+		f := gen(rng)
+		conn.deadlineAns, conn.writeAns, conn.writeN, conn.laterOK, conn.nw = a.deadlineAns, a.writeAns, a.writeN, a.laterOK, 0
 		ctx := context.Background()
 		cancel := func() {}
-		if dl {
+		if a.dl {
 			conn.want = time.Now().Add(time.Duration(1+rng.Intn(1000)) * time.Hour)
 			ctx, cancel = context.WithDeadline(ctx, conn.want)
 		}
-		calls = append(calls, fmt.Sprintf("%s;%s;%s;%x;%s", frameStr(f), b01(dl), errCode(conn.deadlineAns), conn.writeN, errCode(conn.writeAns)))
+		call := fmt.Sprintf("%s;%s;%s;%x;%s", frameStr(f), b01(a.dl), errCode(conn.deadlineAns), conn.writeN, errCode(conn.writeAns))
+		if a.laterOK {
+			call += ";s"
+		}
+		calls = append(calls, call)
 		err := tx.TransmitFrame(ctx, f)
 		cancel()
 		conn.events = append(conn.events, "R"+causeCode(err))
 	}
 	fmt.Fprintf(out, "X %s | %s\n", strings.Join(calls, " "), strings.Join(conn.events, " "))
+}
+
+// every real error kind x every byte count 0..16 x with/without deadline as the answer to the FIRST
+// Write of a call (later Writes of the same call, if the code makes any, succeed): as a single call,
+// and inside a sequence of calls on the same transmitter
+func emitTransmitFaults(rng *rand.Rand, gen func(*rand.Rand) can.Frame, thorough bool) {
+	reps := 1
+	if thorough {
+		reps = 10
+	}
+	for rep := 0; rep < reps; rep++ {
+		for _, kind := range realErrs {
+			for n := 0; n <= 16; n++ {
+				for _, dl := range []bool{false, true} {
+					a := txAnswers{dl: dl, writeN: n, writeAns: kind, laterOK: true}
+					emitTransmitCalls(rng, gen, []txAnswers{a})
+					ok := txAnswers{dl: rng.Intn(2) == 0, writeN: 16, laterOK: true}
+					b := txAnswers{dl: rng.Intn(2) == 0, writeN: rng.Intn(17), writeAns: realErrs[rng.Intn(len(realErrs))], laterOK: true}
+					emitTransmitCalls(rng, gen, []txAnswers{ok, a, ok, b, ok})
+				}
+			}
+		}
+		// the deadline call failing with a real error kind: no Write at all
+		for _, kind := range realErrs {
+			emitTransmitCalls(rng, gen, []txAnswers{{dl: true, deadlineAns: kind, writeN: 16, laterOK: true}})
+		}
+	}
 }
 
 func main() {
